@@ -13,7 +13,8 @@ PROPERTY = "C07"
 LEVEL_TEXT = ("for every pair of distributions whose masses are multiples of 1/4 (1/6 thorough) on n, m <= 3 (4) points - including zero-mass entries and "
               "1-vs-rest imbalance - and every cost matrix over {0,1,2} (ties, zeros, degenerate vertices), the plan returned by the real "
               "transport_plan is checked for sign, marginals (1e-9) and cost against the exact optimum, obtained by enumerating all integral "
-              "couplings (transportation polytopes with integral margins have integral vertices)")
+              "couplings (transportation polytopes with integral margins have integral vertices); the plans obtained inside the dense and CSR LOT kernels "
+              "are observed through the module binding of transport_plan and checked the same way against the true point-to-point cost (cost orientation)")
 LEVEL_NOTE = "oracle: exhaustive enumeration of integral couplings in exact integer arithmetic (no LP solver trusted); compiled, bounds-checked and interpreted execution"
 TECHNIQUE = "bounded exhaustive input enumeration of the real solver vs exact brute-force optimum (explicit-state explorer)"
 LEVEL = "exploration"
@@ -142,6 +143,100 @@ def _lopsided_cases(tier):
                     yield {"n": 2, "m": m, "pattern": pat, "p0": p0, "transpose": transpose}
 
 
+# ------------------------------------------------------------------ the plan as the vectorizer uses it
+
+def run_in_vectorizer(case):
+    """Run the real LOT kernel (dense or CSR path, interpreted so that the module-level transport_plan can be observed) on a
+    three-row block and check every plan it obtains against the exact optimum for the TRUE cost matrix
+    cost[i][j] = d(i-th support point of the row, j-th reference point) computed here - this covers the orientation of
+    the cost matrix (transposed when the sample is not larger than the reference) and the (i, j) mapping of the plan."""
+    import math
+    import scipy.sparse as sp
+    import vectorizers.linear_optimal_transport as L
+    from pynndescent.distances import euclidean
+    U, path = case["U"], case["path"]
+    rows = [(case["x"], case["p"]), ((5.0,), (0,)), ((3.0, 0.0), (1, U - 1))]
+    ref_x, q_u = case["y"], case["q"]
+    ref = np.array([[y] for y in ref_x], dtype=np.float64)
+    q = np.array(q_u, dtype=np.float64) / U
+    rec = []
+    real = L.transport_plan
+
+    def spy(p_, q_, c_):
+        plan = real(p_, q_, c_)
+        rec.append((np.array(p_, dtype=np.float64), np.array(q_, dtype=np.float64), np.array(plan, dtype=np.float64)))
+        return plan
+    L.transport_plan = spy
+    try:
+        if path == "dense":
+            sv = [np.array([[x] for x in xs], dtype=np.float64) for xs, _ in rows]
+            sd = [np.array(ps, dtype=np.float64) for _, ps in rows]
+            L.lot_vectors_dense_internal(sv, sd, ref, q, metric=euclidean, max_distribution_size=256, chunk_size=2, spherical_vectors=False)
+            supports = [(list(xs), list(ps)) for xs, ps in rows]
+        else:
+            # CSR path: one vocabulary of points, each row selects its support by column index (zero masses are not stored)
+            vocab, rr, cc, dd, supports = [], [], [], [], []
+            for r, (xs, ps) in enumerate(rows):
+                sx, spp = [], []
+                for x, m in zip(xs, ps):
+                    if m > 0:
+                        rr.append(r); cc.append(len(vocab)); dd.append(float(m)); vocab.append([x]); sx.append(x); spp.append(m)
+                supports.append((sx, spp))
+            X = sp.csr_matrix((dd, (rr, cc)), shape=(len(rows), max(len(vocab), 1)))
+            L.lot_vectors_sparse_internal(X.indptr, X.indices, X.data, np.array(vocab or [[0.0]], dtype=np.float64), ref, q, metric=euclidean,
+                                          max_distribution_size=256, chunk_size=2, spherical_vectors=False)
+    except Exception as e:
+        return res([viol("exception:in-vectorizer:%s:%s" % (path, type(e).__name__), "%s raised %r" % (case, e))], out="exc")
+    finally:
+        L.transport_plan = real
+    live = [(xs, ps) for xs, ps in supports if sum(ps) > 0]
+    v = []
+    if len(rec) != len(live):
+        return res([viol("plan-calls:%s" % path, "%d plans were computed for %d rows with mass (%s)" % (len(rec), len(live), case))], out="calls")
+    nt = None
+    for (xs, ps), (p_, q_, plan) in zip(live, rec):
+        n, m = len(xs), len(ref_x)
+        sq = "square" if n == m else ("tall" if n > m else "wide")
+        if plan.shape != (n, m):
+            v.append(viol("shape:in-vectorizer:%s:%s" % (path, sq), "plan shape %s for a %dx%d problem" % (plan.shape, n, m)))
+            continue
+        tot_u = sum(ps)
+        pu = tuple(int(x) * U // tot_u for x in ps) if (U % tot_u == 0) else None
+        pn = np.array(ps, dtype=np.float64) / tot_u
+        if np.abs(p_ - pn).max() > 1e-12 or np.abs(q_ - q).max() > 1e-12:
+            v.append(viol("plan-inputs:%s" % path, "the solver was given p=%s q=%s for row masses %s, reference %s" % (p_.tolist(), q_.tolist(), pn.tolist(), q.tolist())))
+        if (plan < -1e-12).any() or np.abs(plan.sum(axis=1) - pn).max() > 1e-9 or np.abs(plan.sum(axis=0) - q).max() > 1e-9:
+            v.append(viol("marginals:in-vectorizer:%s:%s" % (path, sq), "plan %s marginals %s / %s expected %s / %s" % (plan.tolist(), plan.sum(axis=1).tolist(), plan.sum(axis=0).tolist(), pn.tolist(), q.tolist())))
+        if pu is None:
+            continue
+        D = tuple(tuple(float(abs(x - y)) for y in ref_x) for x in xs)
+        best, count = optimum(pu, tuple(q_u), D)
+        tot, opt = float((plan * np.array(D)).sum()), best / U
+        if abs(tot - opt) > 1e-6 * max(1.0, abs(opt)):
+            v.append(viol("not-optimal:in-vectorizer:%s:%s" % (path, sq), "row support %s masses %s, reference %s masses %s: the plan used %s costs %r under the true cost %s, the optimum is %r" % (
+                xs, ps, list(ref_x), list(q_u), plan.tolist(), tot, D, opt)))
+        if count > 1:
+            nt = repr(case)
+    return res(v, nt=nt, out="plans=%d" % len(rec))
+
+
+def _in_vectorizer_cases(tier):
+    U = 4
+    sizes = (1, 2, 3) if tier == "quick" else (1, 2, 3, 4)
+    for path in ("dense", "sparse"):
+        for n in sizes:
+            for m in sizes:
+                for x in itertools.product((0.0, 1.0, 3.0), repeat=n):
+                    for y in itertools.product((0.0, 2.0, 4.0) if m < 3 else (0.0, 2.0), repeat=m):
+                        for p in compositions(U, n):
+                            if path == "sparse" and 0 in p:
+                                continue
+                            for q in compositions(U, m):
+                                if 0 in q:
+                                    continue
+                                yield {"path": path, "U": U, "x": list(x), "p": list(p), "y": list(y), "q": list(q)}
+
+
 def subchecks(tier, seed):
     small = [(1, 1), (1, 2), (2, 1), (1, 3), (3, 1), (2, 2), (2, 3), (3, 2)]
     if tier == "quick":
@@ -155,6 +250,9 @@ def subchecks(tier, seed):
     subs = [Sub("lopsided_N", "N", (lambda: _lopsided_cases(tier)), run_lopsided, total=sum(1 for _ in _lopsided_cases(tier)),
                 describe="very unbalanced problem sizes: 1 or 2 sources against 17..40(100) unit-mass sinks and the transposed problems, 6 cost patterns; optimum in closed form",
                 nontrivial_rule="every case")]
+    subs.append(Sub("plan_in_vectorizer_I", "I", (lambda: _in_vectorizer_cases(tier)), run_in_vectorizer, total=sum(1 for _ in _in_vectorizer_cases(tier)),
+                    describe="the plans obtained INSIDE lot_vectors_dense_internal / lot_vectors_sparse_internal (transport_plan observed through its module binding): supports of 1..3(4) points on {0,1,3}, references of 1..3(4) points, masses in quarters; each plan vs the exact optimum under the true point-to-point cost (cost-matrix orientation, square/tall/wide)",
+                    nontrivial_rule="more than one feasible integral coupling for the first row"))
     for name, mode, shapes, U, costs in specs:
         g = (lambda s, u, c: (lambda: _cases(s, u, c)))(shapes, U, costs)
         subs.append(Sub(name, mode, g, run_case, total=sum(1 for _ in g()),
